@@ -90,7 +90,7 @@ PROPS = {
         assumptions=["finite ordinates", "geojson.DefaultLayout left at XY"],
     ),
     "C08": dict(
-        modules=["GeomVerif.Properties.C08"],
+        modules=["GeomVerif.Properties.C08", "GeomVerif.Properties.C08Order"],
         n_quick=20000, n_thorough=300000, thorough_seeds=4, min_theorems=4,
         rule="ops: Bounds() of one flat geometry (7 types, layouts XY..XYZM, Layout(5,6,8)); Bounds() of nested collections (depth<=3, "
              "members XY/XYZ/XYM/XYZM, some with a fixed layout); Extend sequences of 1..6 geometries/collections of mixed layouts on "
